@@ -109,6 +109,49 @@ pub enum Case {
     Misc(u8),
 }
 
+/// An enum whose `ScpiEnum` impl is written by hand: mnemonics in customary unit spelling, the bus
+/// short forms supplied by overriding the provided `short_form()`.
+#[derive(Clone, Copy, Debug, PartialEq)]
+pub enum HandUnit {
+    Dbm,
+    Dbuv,
+    Ohm,
+    Volt,
+}
+const HAND_UNITS: [HandUnit; 4] = [HandUnit::Dbm, HandUnit::Dbuv, HandUnit::Ohm, HandUnit::Volt];
+
+impl scpi::option::ScpiEnum for HandUnit {
+    fn from_mnemonic(s: &[u8]) -> Option<Self> {
+        HAND_UNITS.into_iter().find(|u| scpi::parser::mnemonic_match(u.mnemonic(), s) || s.eq_ignore_ascii_case(u.short_form()))
+    }
+    fn mnemonic(&self) -> &'static [u8] {
+        match self {
+            HandUnit::Dbm => b"dBm",
+            HandUnit::Dbuv => b"dBuV",
+            HandUnit::Ohm => b"Ohm",
+            HandUnit::Volt => b"VOLT",
+        }
+    }
+    fn short_form(&self) -> &'static [u8] {
+        match self {
+            HandUnit::Dbm => b"DBM",
+            HandUnit::Dbuv => b"DBUV",
+            HandUnit::Ohm => b"OHM",
+            HandUnit::Volt => b"VOLT",
+        }
+    }
+}
+
+impl<'a> TryFrom<Token<'a>> for HandUnit {
+    type Error = Error;
+    fn try_from(t: Token<'a>) -> Result<Self, Error> {
+        match t {
+            Token::CharacterProgramData(s) => <HandUnit as scpi::option::ScpiEnum>::from_mnemonic(s).ok_or_else(|| scpi::error::ErrorCode::IllegalParameterValue.into()),
+            _ => Err(scpi::error::ErrorCode::DataTypeError.into()),
+        }
+    }
+}
+
 pub fn fmt<T: ResponseData>(v: &T) -> Result<Vec<u8>, Error> {
     let mut buf: Vec<u8> = Vec::with_capacity(32);
     v.format_response_data(&mut buf)?;
@@ -578,12 +621,24 @@ pub fn check(case: &Case, obs: &Obs) -> CheckResult {
         Case::Misc(k) => {
             use scpi_contrib::scpi1999::util::Auto;
             obs.label("AUTO / version");
+            use scpi::option::ScpiEnum as _;
             let (got, want): (Result<Vec<u8>, Error>, &[u8]) = match k % 4 {
                 0 => (fmt(&Auto::Once), b"ONCE"),
                 1 => (fmt(&Auto::Bool(true)), b"1"),
                 2 => (fmt(&Auto::Bool(false)), b"0"),
                 _ => (fmt(&&scpi_contrib::scpi1999::system::SystVersionCommand::new(1999, 0)), b"1999.0"),
             };
+            if k % 8 >= 4 {
+                // a hand-written ScpiEnum that overrides the provided short_form(): the response is that text
+                let v = HAND_UNITS[(k % 4) as usize];
+                let got = fmt(&v);
+                let want = v.short_form();
+                obs.label("hand-written enum with its own short_form()");
+                ensure!(got.as_deref() == Ok(want), "enum-short-form-override", "{v:?} formatted as {got:?}, its short_form() is {:?}", String::from_utf8_lossy(want));
+                let back = lex_single(want).and_then(|t| HandUnit::try_from(t).ok());
+                ensure!(back == Some(v), "enum-roundtrip", "{v:?} -> {:?} -> library parses {back:?}", String::from_utf8_lossy(want));
+                return Ok(());
+            }
             ensure!(got.as_deref() == Ok(want), "misc-text", "formatted as {got:?}, expected {:?}", String::from_utf8_lossy(want));
             if k % 4 < 3 {
                 // AUTO round trip
@@ -696,7 +751,7 @@ fn case_strategy() -> impl Strategy<Value = Case> {
         2 => ((-899i16..=0), text7()).prop_map(|(code, ext)| Case::StdErrorExt { code, ext }),
         2 => (0u8..13).prop_map(Case::Enum),
         3 => (any::<bool>(), f64_bits(), any::<u8>()).prop_map(|(single, bits, which)| Case::Quantity { single, bits: if single { (f64::from_bits(bits) as f32).to_bits() as u64 } else { bits }, which }),
-        1 => (0u8..4).prop_map(Case::Misc),
+        1 => (0u8..8).prop_map(Case::Misc),
     ]
 }
 
